@@ -604,4 +604,7 @@ def run(ctx):
     from rules import c17 as _c17r
     _c17r.rule_prefix_only(ctx, R="C14/reader-prefix-only")
     _c17r.rule_args(ctx, R="C14/reader-args")
+    # shared infrastructure this property leans on (rules/families.py): each member is the same rule instance as in its home property
+    from rules import families as _fam
+    _fam.reader(ctx, "C14", module=True)
 
